@@ -28,7 +28,7 @@ def get_fns(key):
         import jax
         import jax.numpy as np
         from optimism import Mechanics, Mesh, FunctionSpace, QuadratureRule, Interpolants
-        name, order = key
+        name, order, proj = (tuple(key) + (None,))[:3]
         cfg = mats.CONFIGS[name]
         pe, pe1 = Interpolants.make_parent_elements(order)
         quad = QuadratureRule.create_quadrature_rule_on_triangle(2 * order)
@@ -63,6 +63,37 @@ def get_fns(key):
 
         def init(coords, conns, pv, rho):
             return mk(coords, conns, pv, rho, 0.5, 0.25).compute_initial_state()
+
+        if proj is not None:
+            # the pressure-projection factory needs concrete arrays: built eagerly, once per generated case
+            import numpy as onp_
+            cache = {}
+
+            def get(coords, conns, pv, rho, gamma, beta):
+                k = (onp_.asarray(coords).tobytes(), onp_.asarray(conns).tobytes(), onp_.asarray(pv).tobytes(), float(rho), float(gamma), float(beta))
+                if cache.get('k') != k:
+                    cache.clear()
+                    mesh = Mesh.Mesh(np.array(coords), np.array(conns), None, pe, pe1, {'block_0': np.arange(conns.shape[0])}, None, None)
+                    fs = FunctionSpace.construct_function_space(mesh, quad, 'cartesian')
+                    model = mats.make_model(cfg, [float(v) for v in pv])._replace(density=float(rho))
+                    df = Mechanics.create_dynamics_functions(fs, 'plane strain', model, Mechanics.NewmarkParameters(gamma=float(gamma), beta=float(beta)),
+                                                             pressureProjectionDegree=proj)
+
+                    def psi_(U, Up, state, dt):
+                        e = lambda u: df.compute_algorithmic_energy(u, Up, state, dt)
+                        return e(U), jax.grad(e)(U), jax.hessian(e)(U)
+
+                    def energies_(U, V, state, dt):
+                        se = lambda u: df.compute_output_strain_energy(u, state, dt)
+                        ke = lambda v: df.compute_output_kinetic_energy(v)
+                        return se(U), jax.grad(se)(U), ke(V), jax.hessian(ke)(V), df.compute_element_masses()
+                    cache.update(k=k, df=df, psi=jax.jit(psi_), energies=jax.jit(energies_))
+                return cache
+            predict = lambda coords, conns, pv, rho, gamma, beta, U, V, A, dt: get(coords, conns, pv, rho, gamma, beta)['df'].predict(np.array(U), np.array(V), A, dt)
+            correct = lambda coords, conns, pv, rho, gamma, beta, dU, V, A, dt: get(coords, conns, pv, rho, gamma, beta)['df'].correct(dU, np.array(V), A, dt)
+            psi = lambda coords, conns, pv, rho, gamma, beta, U, Up, state, dt: get(coords, conns, pv, rho, gamma, beta)['psi'](U, Up, state, dt)
+            energies = lambda coords, conns, pv, rho, gamma, beta, U, V, state, dt: get(coords, conns, pv, rho, gamma, beta)['energies'](U, V, state, dt)
+            init = lambda coords, conns, pv, rho: get(coords, conns, pv, rho, 0.5, 0.25)['df'].compute_initial_state()
         _C[key] = dict(predict=predict, correct=correct, psi=psi, energies=energies, init=init)
     return _C[key]
 
@@ -70,9 +101,13 @@ def get_fns(key):
 CELLS = [('linear-elastic/linear', 1), ('neohookean/adagio', 1), ('linear-elastic/linear', 2), ('neohookean/adagio', 2)]
 
 
+PROJ_CELLS = [('linear-elastic/linear', 2, 0), ('neohookean/adagio', 2, 0), ('linear-elastic/linear', 2, 1)]
+
+
 @st.composite
-def cases(draw):
-    name, order = CELLS[draw(st.integers(0, len(CELLS) - 1))]
+def cases(draw, cells=CELLS):
+    cell = cells[draw(st.integers(0, len(cells) - 1))]
+    name, order = cell[:2]
     cfg = mats.CONFIGS[name]
     pr = draw(mats.properties(cfg))
     mesh = draw(gen.lattice_mesh(fixed=(2, 2)))
@@ -85,7 +120,9 @@ def cases(draw):
     nsteps = draw(st.integers(1, 8))
     dts = [draw(gen.logfloat(-3, 0)) for _ in range(nsteps)]
     return {'model': name, 'order': order, 'props': pr, 'mesh': mesh, 'kind': kind, 'gamma': gamma, 'beta': beta, 'dts': dts,
-            'rho': draw(gen.logfloat(-2, 2)), 'ucoef': draw(st.lists(gen.floats(-1, 1), min_size=12, max_size=12)),
+            # the density sets the absolute time scale (dt ~ L sqrt(rho / stiffness)): decades of it, down to dt ~ 1e-8
+            'proj': cell[2] if len(cell) > 2 else None,
+            'rho': draw(gen.logfloat(-2, 2)) if draw(st.integers(0, 2)) else draw(gen.logfloat(-12, -2)), 'ucoef': draw(st.lists(gen.floats(-1, 1), min_size=12, max_size=12)),
             'vcoef': draw(st.lists(gen.floats(-1, 1), min_size=12, max_size=12)), 'acoef': draw(st.lists(gen.floats(-1, 1), min_size=12, max_size=12)),
             'amp': draw(gen.logfloat(-4, -1)), 'consistentA': draw(st.booleans()), 'bc': draw(st.booleans()),
             'bcseed': draw(st.integers(0, 10 ** 6)), 'vrigid': draw(st.lists(gen.floats(-2, 2), min_size=2, max_size=2))}
@@ -106,12 +143,14 @@ def check(case):
     c1, t1 = gen.mesh_arrays(case['mesh'])
     area = float(onp.abs(gen._tri_areas(c1, t1)).sum())
     L = onp.ptp(c1, axis=0).max()
-    F = get_fns((case['model'], case['order']))
+    F = get_fns((case['model'], case['order'], case.get('proj')))
     geo = (mesh.coords, conns, pv, rho, gamma, beta)
     # time scale: fastest wave across the mesh
     cwave = math.sqrt(pr['stiff'] / rho)
     tscale = L / cwave
-    dts = [d * tscale * 10 for d in case['dts']]
+    # steps up to ten wave-transit times; with pressure projection (J = det F must stay positive for every model) one
+    dts = [d * tscale * (10 if case.get('proj') is None else 1) for d in case['dts']]
+    Lext = float(onp.ptp(coords, axis=0).max())
     isbc = onp.zeros((nn, 2), dtype=bool)
     if case['bc'] and case['kind'] != 'rigid':
         nodes = pick_nodes(nn, 0.25, case['bcseed'])
@@ -153,7 +192,7 @@ def check(case):
             a[unk] = onp.linalg.lstsq(M[onp.ix_(unk, unk)], -gse0.ravel()[unk], rcond=None)[0]
             A = a.reshape(nn, 2)
         E0 = float(se0) + float(ke0)
-        energy_ok = case['kind'] == 'trapezoidal' and cfg.family == 'linear-elastic' and case['consistentA']
+        energy_ok = case['kind'] == 'trapezoidal' and cfg.family == 'linear-elastic' and case['consistentA'] and case.get('proj') is None
         t = 0.0
         for k, dt in enumerate(dts):
             Up, Vp = [onp.asarray(o) for o in F['predict'](*geo, np.array(U), np.array(V), np.array(A), dt)]
@@ -174,7 +213,7 @@ def check(case):
                 g = g.ravel()[unk]
                 H = H.reshape(2 * nn, 2 * nn)[onp.ix_(unk, unk)]
                 scale = onp.abs(H).max() * (onp.abs(Un).max() + onp.abs(Up).max() + 1e-300)
-                if onp.linalg.norm(g) <= 1e-10 * scale * math.sqrt(g.size):
+                if onp.linalg.norm(g) <= (1e-10 * scale + 1e2 * EPS * onp.abs(H).max() * Lext) * math.sqrt(g.size):
                     ok = True
                     hscale = scale
                     polish += 1
@@ -203,7 +242,7 @@ def check(case):
             sc = onp.abs(M).max() * onp.abs(An).max() + onp.abs(gse).max() + 1e-300
             # rounding floor: the stress is formed from F = I + grad u with O(1) entries, so nodal forces carry an absolute
             # error of order eps * stiffness * mesh extent however small u is
-            floor = 1e4 * EPS * hscale + 1e3 * EPS * onp.abs(H).max() * float(onp.ptp(coords, axis=0).max())
+            floor = 1e4 * EPS * hscale + 1e3 * EPS * onp.abs(H).max() * Lext
             if onp.abs(r).max() > 1e-9 * sc + floor:
                 fails.append(Failure('momentum-balance', 'step %d: |M A + grad SE| = %.3e relative on the unknowns' % (k, onp.abs(r).max() / sc)))
             if fails:
@@ -222,7 +261,7 @@ def check(case):
                     fails.append(Failure('rigid-translation', 'step %d: rigid translation at constant velocity not reproduced (error %.3e)'
                                          % (k, onp.abs(U - Uex[None, :]).max())))
                     break
-    classes = [case['model'], 'order%d' % case['order'], case['kind'], 'bc' if case['bc'] else 'free', 'consistentA' if case['consistentA'] else 'arbitraryA']
+    classes = [case['model'], 'order%d' % case['order'], case['kind'], 'proj-%s' % case.get('proj'), 'dt<1e-4' if min(dts) < 1e-4 else 'dt>=1e-4', 'bc' if case['bc'] else 'free', 'consistentA' if case['consistentA'] else 'arbitraryA']
     if energy_ok:
         classes.append('energy-checked')
     nt = bool(len(dts) >= 3 and len(set(dts)) >= 2 and case['kind'] != 'rigid')
@@ -230,6 +269,8 @@ def check(case):
 
 
 SUBCHECKS = [
-    Sub('steps', cases, check, quick=150, thorough=1500, shards_quick=16, shards_thorough=16,
-        required=('general', 'trapezoidal', 'rigid', 'energy-checked', 'bc', 'free', 'order2'), budget_quick=170, timeout=300),
+    Sub('steps', cases, check, quick=150, thorough=1500, shards_quick=13, shards_thorough=13,
+        required=('general', 'trapezoidal', 'rigid', 'energy-checked', 'bc', 'free', 'order2', 'dt<1e-4'), budget_quick=170, timeout=300),
+    Sub('projection', lambda: cases(PROJ_CELLS), check, quick=12, thorough=150, shards_quick=3, shards_thorough=3,
+        required=('proj-0',), budget_quick=170, timeout=600),
 ]
